@@ -17,6 +17,7 @@ type c01 struct {
 	nCorpus, nGen, nSweep, nSoup int
 	sweepTargets                 []sweepTarget
 	recoverSites                 map[int]string
+	env                          Env
 	st                           c01stats
 }
 
@@ -145,12 +146,27 @@ var soupTokens = []string{
 	"//", " // ann", "/*", "*/", "/*/", "#", "###", "\r\n", "\r", "\t", "@t", " @t | @e", "Protocol", " json-rpc-2.0", "Method",
 	" m", "Params", "Result", "TAG", "Tags", " @tag", "/ab+/", "\\", "\x00", "\xff", "1", "true", "null", "[@t]",
 	"{\n  \"a\": @t\n}", "{ // {allOf: \"@t\"}\n}", " // {enum: @e}", " // {or: [@t, @e]}", " htmlFormEncoded",
+	" \"\"", "\"\"", " \"x.jst\"", "\n  5", "\n    42", "\n  1.", "\n  200", "\n 3\n", " // {type: \"\"}", " // {min: }", " // {}",
+	"\n  Path\n    @t\n", " @t regex\n  /ab+/\n", "\n  Path\n    {\"id\": 1}\n",
+	longRun("\x80", 260), longRun("\xbf", 199) + "x", longRun("a", 300), longRun(" ", 300), longRun("\xff", 210), longRun("\x00", 230),
+	"URL /" + longRun("\x9f", 220), "Description\n  " + longRun("\xa0", 250) + "\n", longRun("(", 60), longRun("{\"a\":", 40),
 }
+
+// soupTails end a document: short last lines at the very end of the buffer.
+var soupTails = []string{
+	"\nGET /a\n  Description\n    5", "\nGET /a\n  Description\n    42", "\nINFO\n  Description\n  text\n  1.", "\nDescription\n 3",
+	"\nGET /a\n  Description\n    2\n", "\nGET /a // a", "\nGET /a /*", "\nTYPE @t\n  {", "\nURL /a\n(", "\nENUM @e\n  [", "\nGET /a\n  200\n    1 // {",
+}
+
+func longRun(s string, n int) string { return strings.Repeat(s, n) }
 
 func (c *c01) DumpCase(seed uint64, idx int) []Case {
 	r := newRng(splitmix(seed, uint64(idx)))
 	base := Case{Prop: "C01", Seed: seed, Index: idx, Env: refEnv}
 	base.Opts = optionSets[r.n(len(optionSets))]
+	if r.chance(250) {
+		base.Env.Slack = []int{1, 2, 512}[r.n(3)]
+	}
 	switch {
 	case idx < c.nCorpus:
 		base.Kind = "corpus"
@@ -165,7 +181,16 @@ func (c *c01) DumpCase(seed uint64, idx int) []Case {
 	case idx < c.nCorpus+c.nGen:
 		base.Kind = "gen"
 		cfg := randomCfg(r)
-		switch r.n(8) {
+		if r.chance(250) {
+			cfg.RuleFuzz = true
+		}
+		if r.chance(250) {
+			cfg.PathBodyFuzz = true
+			cfg.Types += 2
+		}
+		switch r.n(10) {
+		case 8, 9:
+			cfg.MacroGraph = 2 + r.n(5)
 		case 0:
 			cfg.MutualMacros = 1 + r.n(4)
 		case 1:
@@ -225,8 +250,23 @@ func (c *c01) DumpCase(seed uint64, idx int) []Case {
 		if r.chance(600) {
 			sb.WriteString("JSIGHT 0.3\n")
 		}
+		if r.chance(200) {
+			// INCLUDE with a name over the characters that matter, bare or quoted (also the empty quoted name)
+			name := ""
+			for k := r.n(5); k > 0; k-- {
+				name += string("./\\a\"x"[r.n(6)])
+			}
+			if r.chance(400) {
+				name = "\"" + name + "\""
+			}
+			sb.WriteString("INCLUDE " + name + "\n")
+			n = r.n(3)
+		}
 		for i := 0; i < n; i++ {
 			sb.WriteString(soupTokens[r.n(len(soupTokens))])
+		}
+		if r.chance(150) {
+			sb.WriteString(soupTails[r.n(len(soupTails))])
 		}
 		p := Project{Root: "/sim/proj/s/main.jst", Cwd: "/sim/cwd"}
 		p.set(p.Root, []byte(sb.String()))
@@ -360,7 +400,7 @@ func clampInt(v, lo, hi int) int {
 
 func (c *c01) exec(p *Project, o Opts, plan []simrt.PlannedFault, seed uint64) (Result, *simrt.Disk) {
 	c.st.Exec++
-	r, d, _ := execute(p, o, refEnv, plan, seed, nil)
+	r, d, _ := execute(p, o, c.env, plan, seed, nil)
 	for k, n := range d.Fired {
 		c.st.Fired[k] += n
 	}
@@ -448,6 +488,7 @@ func projectDigest(p *Project) uint64 {
 
 func (c *c01) check(cs *Case, record bool) *Case {
 	p := &cs.Project
+	c.env = cs.Env
 	switch cs.Kind {
 	case "sweep":
 		path, _ := cs.Extra["path"].(string)
@@ -494,6 +535,24 @@ func (c *c01) check(cs *Case, record bool) *Case {
 					v.Kind = "corpus" // replay as an ordinary planned-fault case
 					v.Extra = map[string]any{"explicit_plan": true}
 					return v
+				}
+				if path == p.absRoot() && plan[0].Kind != simrt.FZeroTail {
+					// the same damaged root handed over in memory (exact capacity), not read from the disk
+					fo := cs.Opts
+					fo.Entry = "file"
+					fplan := []simrt.PlannedFault{{Call: -1, Kind: plan[0].Kind, P1: plan[0].P1, P2: plan[0].P2}}
+					got, d := c.exec(p, fo, fplan, cs.Seed)
+					if record {
+						c.st.FaultRuns++
+						c.st.SweepPoints++
+						c.note(p, fplan, d, false)
+					}
+					if v := c.judge(cs, &got, fplan); v != nil {
+						v.Kind = "corpus"
+						v.Opts = fo
+						v.Extra = map[string]any{"explicit_plan": true}
+						return v
+					}
 				}
 			}
 		}
